@@ -14,11 +14,29 @@ import sys
 import traceback
 
 
+def _enable_jax_cache():
+    """persistent XLA compilation cache shared by all workers (pure optimisation: entries are keyed
+    by the compiled computation itself, so it is valid for any version of the code under test)"""
+    d = os.environ.get("VERIF_JAX_CACHE", "/dev/shm/vpbt-jaxcache")
+    if d in ("", "off"):
+        return
+    try:
+        os.makedirs(d, exist_ok=True)
+        import jax
+
+        jax.config.update("jax_compilation_cache_dir", d)
+        jax.config.update("jax_persistent_cache_min_compile_time_secs", 0)
+        jax.config.update("jax_persistent_cache_min_entry_size_bytes", -1)
+    except Exception:
+        pass
+
+
 def main():
     prop_id, tier, seed, shard, nshards, out = sys.argv[1:7]
     replay = None
     if len(sys.argv) > 7 and sys.argv[7] == "--replay":
         replay = sys.argv[8]
+    _enable_jax_cache()
     from vpbt.ctx import Ctx
 
     ctx = Ctx(prop_id, tier, int(seed), int(shard), int(nshards))
